@@ -207,9 +207,10 @@ def rand_op(rng, allow_capture=True, depth=0):
     if r < 0.73:
         return ["control", rng.choice(["\x1b[1A", "\x1b[2K", "\r"])]
     if r < 0.83 and allow_capture:
-        subs = [rand_op(rng, depth == 0 and rng.random() < 0.35, depth + 1) for _ in range(rng.randint(1, 3))]
-        return ["capture" if rng.random() < 0.8 else "capture_raises",
-                [o for o in subs if not o[0].startswith("export")] or [["line", 1]]]
+        # (one capture block in eight prints nothing at all: what follows it must still reach the file)
+        subs = [rand_op(rng, depth == 0 and rng.random() < 0.35, depth + 1) for _ in range(rng.choice([0, 1, 1, 2, 2, 2, 3, 3]))]
+        subs = [o for o in subs if not o[0].startswith("export")]
+        return ["capture" if rng.random() < 0.8 else "capture_raises", subs if (subs or rng.random() < 0.6) else [["line", 1]]]
     if r < 0.92:
         return ["export_text", {"clear": rng.random() < 0.5, "styles": rng.random() < 0.5, "via_file": rng.random() < 0.25}]
     return ["export_html", {"clear": rng.random() < 0.5, "inline_styles": rng.random() < 0.5, "via_file": rng.random() < 0.25}]
